@@ -13,6 +13,7 @@ fn main() {
 	let rt = tokio::runtime::Builder::new_multi_thread().worker_threads(4).enable_all().build().unwrap();
 	match args[1].as_str() {
 		"filter" => rt.block_on(filter(&args[2], &args[3])),
+		"discover" => rt.block_on(discover(&args[2], &args[3])),
 		other => panic!("unknown subcommand {other}"),
 	}
 }
@@ -121,6 +122,55 @@ async fn filter(cases: &str, base: &str) {
 			}
 		}
 		emit(&json!({"id": id, "root": root.to_string_lossy(), "origin": origin.to_string_lossy(), "variants": variants}));
+		let _ = std::fs::remove_dir_all(&root);
+	}
+}
+
+// ---------------------------------------------------------------- C14
+
+async fn discover(cases: &str, base: &str) {
+	use ignore_files::{from_origin, IgnoreFilesFromOriginArgs};
+	std::fs::create_dir_all(base).unwrap();
+	let base = std::fs::canonicalize(base).unwrap();
+	for case in read_cases(cases) {
+		let id = case["id"].as_u64().unwrap();
+		let root = base.join(format!("d{id}"));
+		let _ = std::fs::remove_dir_all(&root);
+		std::fs::create_dir_all(&root).unwrap();
+		for e in case["entries"].as_array().unwrap() {
+			let p = root.join(e["path"].as_str().unwrap());
+			match e["kind"].as_str().unwrap() {
+				"dir" => std::fs::create_dir_all(&p).unwrap(),
+				"file" => {
+					std::fs::create_dir_all(p.parent().unwrap()).unwrap();
+					let body = e["lines"].as_array().map(|_| strs(&e["lines"]).join("\n") + "\n").unwrap_or_else(|| "x\n".into());
+					std::fs::write(&p, body.replace("@ROOT@", &root.to_string_lossy())).unwrap();
+				}
+				"empty" => {
+					std::fs::create_dir_all(p.parent().unwrap()).unwrap();
+					std::fs::write(&p, b"").unwrap();
+				}
+				_ => {
+					std::fs::create_dir_all(p.parent().unwrap()).unwrap();
+					let _ = std::os::unix::fs::symlink(e["target"].as_str().unwrap_or("/nonexistent"), &p);
+				}
+			}
+		}
+		let origin = root.join(case["origin"].as_str().unwrap());
+		let watches: Vec<PathBuf> = strs(&case["watches"]).iter().map(|w| root.join(w)).collect();
+		let explicit: Vec<PathBuf> = strs(&case["explicit"]).iter().map(|w| root.join(w)).collect();
+		std::env::set_var("HOME", &root);
+		let args = IgnoreFilesFromOriginArgs::new(&origin, watches, explicit).unwrap();
+		let (files, errors) = from_origin(args).await;
+		let rel = |p: &Path| p.strip_prefix(&root).map(|r| r.to_string_lossy().into_owned()).unwrap_or_else(|_| p.to_string_lossy().into_owned());
+		let mut out: Vec<String> = files
+			.iter()
+			.map(|f| format!("{}|{}|{}", rel(&f.path), f.applies_in.as_deref().map_or("-".into(), rel), f.applies_to.map_or("-".into(), |t| format!("{t:?}"))))
+			.collect();
+		let ordered = out.clone();
+		out.sort();
+		out.dedup();
+		emit(&json!({"id": id, "root": root.to_string_lossy(), "files": out, "ordered": ordered, "errors": errors.iter().map(|e| e.to_string()).collect::<Vec<_>>()}));
 		let _ = std::fs::remove_dir_all(&root);
 	}
 }
